@@ -112,7 +112,7 @@ func (o *byKeySetOrchestrator) newPipeline(keys []string, onStopped func()) chan
 	pipelineMetricCreator := o.metricCreator.AddOrGetPrefix(
 		"process_",
 		append([]string{"orchestrator"}, o.metricKeyNames...),
-		append([]string{"byKeySet"}, keys...),
+		append([]string{"byKeySet"}, base.MetricLabelValues(keys)...),
 	)
 	o.startPipeline(pipelineLogger, pipelineMetricCreator, inputChannel, workerID, outputTag, onStopped)
 	return inputChannel
